@@ -43,6 +43,8 @@ func checkC02(p *Prog, r *Report) {
 	// a second frame on a stream is taken by the client as the answer to whatever request it
 	// sends next on that stream id: at most one frame per request is part of C02 as well
 	r.borrow("C01", "C02", func() { c01Activation(p, r) })
+	// the frame a request hands to a backend writer stays its own until it is written (and on every retry)
+	r.borrow("C03", "C02", func() { c03FrameOwnership(p, r) })
 }
 
 func c02Ownership(p *Prog, r *Report) {
@@ -288,7 +290,14 @@ func c02StreamAlloc(p *Prog, r *Report) {
 			if f := p.fieldByType("proxycore", "requestSender", func(t types.Type) bool { return typeIs(t, "proxycore", "Request") }); f != nil {
 				reqFld = f.Name()
 			}
-			if f := p.fieldByType("proxycore", "requestSender", func(t types.Type) bool { return typeIs(t, "proxycore", "ClientConn") }); f != nil {
+			// (the connection may be held through a narrow interface it implements)
+			if f := p.fieldByType("proxycore", "requestSender", func(t types.Type) bool {
+				if typeIs(t, "proxycore", "ClientConn") {
+					return true
+				}
+				it, isIface := t.Underlying().(*types.Interface)
+				return isIface && !typeIs(t, "proxycore", "Request") && it.NumMethods() > 0 && types.Implements(types.NewPointer(cc), it)
+			}); f != nil {
 				connFld = f.Name()
 			}
 			if ex, ok := lit[streamFld].(*ssa.Extract); ok && ex.Index == 0 {
@@ -302,7 +311,11 @@ func c02StreamAlloc(p *Prog, r *Report) {
 			if reqParam == nil || lit[reqFld] != reqParam {
 				bad = append(bad, "the sender does not carry the request that was registered")
 			}
-			if lit[connFld] != ssa.Value(send.Params[0]) {
+			bound := lit[connFld]
+			if mi, ok := bound.(*ssa.MakeInterface); ok {
+				bound = mi.X
+			}
+			if bound != ssa.Value(send.Params[0]) {
 				bad = append(bad, "the sender is bound to another connection")
 			}
 		}
@@ -837,9 +850,9 @@ func c02StreamRelease(p *Prog, r *Report) {
 		arg := cs.Common().Args[len(cs.Common().Args)-1]
 		why := ""
 		switch {
-		case rootFn(fn) == pr.closing || func() bool {
+		case rootFn(fn) == pr.closing || rootFn(fn) == pr.rangeFn || func() bool {
 			for _, rc := range rangeCallsOf(p, rootFn(fn)) {
-				if rootFn(rc.Parent()) == pr.closing {
+				if rootFn(rc.Parent()) == pr.closing || rootFn(rc.Parent()) == pr.rangeFn {
 					return true
 				}
 			}
@@ -855,7 +868,9 @@ func c02StreamRelease(p *Prog, r *Report) {
 			return false
 		}():
 			why = "stream id of a received frame"
-		case callsDirectly(fn, func(c ssa.CallInstruction) bool { return c.Common().StaticCallee() == pr.register || c.Common().StaticCallee() == pr.store }):
+		case callsDirectly(fn, func(c ssa.CallInstruction) bool {
+			return c.Common().StaticCallee() == pr.register || c.Common().StaticCallee() == pr.store
+		}):
 			// the registering function: only under a failed write
 			if guardHolds(p, cs.Block(), func(ct condTruth) bool {
 				bo, ok := ct.Cond.(*ssa.BinOp)
